@@ -534,6 +534,30 @@ pub fn run_box_case(bytes: &[u8]) -> (Vec<String>, bool, Vec<u32>) {
                 if got != want {
                     cx.v(format!("comparisons of Box({x}) and Box({y}) give {:?}, the values give {:?}", got, want));
                 }
+                // partially ordered contents: NaN, signed zeros, infinities; slices whose first differing pair is incomparable
+                {
+                let fl = [f64::NAN, -0.0, 0.0, 1.5, f64::INFINITY, f64::NEG_INFINITY, -f64::NAN];
+                let (fx, fy) = (fl[(g(3) % 7) as usize], fl[(g(4) % 7) as usize]);
+                let (bx, by) = {
+                    let _g = enter_arena(1);
+                    (BBox::new_in(fx, b), BBox::new_in(fy, b))
+                };
+                let gotf = (bx == by, bx != by, bx < by, bx <= by, bx > by, bx >= by, bx.partial_cmp(&by));
+                let wantf = (fx == fy, fx != fy, fx < fy, fx <= fy, fx > fy, fx >= fy, fx.partial_cmp(&fy));
+                if gotf != wantf {
+                    cx.v(format!("comparisons of Box({fx}) and Box({fy}) give {:?}, the values give {:?}", gotf, wantf));
+                }
+                let (fsx, fsy): (BBox<[f64]>, BBox<[f64]>) = {
+                    let _g = enter_arena(1);
+                    (BBox::from_iter_in([1.0, fx, 2.0].iter().cloned(), b), BBox::from_iter_in([1.0, fy, 3.0].iter().cloned(), b))
+                };
+                let (vx, vy) = ([1.0, fx, 2.0], [1.0, fy, 3.0]);
+                let gots = (fsx == fsy, fsx < fsy, fsx <= fsy, fsx > fsy, fsx >= fsy, fsx.partial_cmp(&fsy));
+                let wants = (vx[..] == vy[..], vx[..] < vy[..], vx[..] <= vy[..], vx[..] > vy[..], vx[..] >= vy[..], vx[..].partial_cmp(&vy[..]));
+                if gots != wants {
+                    cx.v(format!("comparisons of boxed slices {:?} and {:?} give {:?}, the slices give {:?}", vx, vy, gots, wants));
+                }
+                }
                 let h = |v: &dyn Fn(&mut DefaultHasher)| {
                     let mut hs = DefaultHasher::new();
                     v(&mut hs);
